@@ -1,0 +1,28 @@
+//go:build verif
+
+package parsepath
+
+// Verification hook (build tag verif only): exposes the unexported scanner's token stream so that
+// the C19 correspondence check can compare it with the Lean model token by token.
+
+// VerifToken is one scanned token together with the scanner position after it.
+type VerifToken struct {
+	Kind int    // tokenKind: ident=0 intlit=1 strlit=2 dot=3 oparen=4 cparen=5 obrack=6 cbrack=7 illegal=8 eof=9
+	Pos  int    // token.Pos
+	End  int    // scanner position after the token was produced
+	Text string // token.Text
+}
+
+// VerifScan runs the scanner over in until the first eof token or until max tokens were produced.
+func VerifScan(in []byte, max int) []VerifToken {
+	s := &scanner{buf: in}
+	var out []VerifToken
+	for len(out) < max {
+		t := s.scan()
+		out = append(out, VerifToken{Kind: int(t.Kind), Pos: t.Pos, End: s.pos, Text: t.Text})
+		if t.Kind == eof {
+			break
+		}
+	}
+	return out
+}
